@@ -11,6 +11,7 @@ KIND_SETS = [
     '{"optS", "optN", "resE", "ncl"}',       # options/results, a non-clonable body
     '{"stA", "stB", "enU", "enT"}',          # derived struct / enum
     '{"enN", "gen", "ncl", "u32a"}',         # nested derive, generic derive
+    '{"zst", "dq", "unit", "vec3"}',         # zero-sized type with destructor, wrapped ring buffer
 ]
 
 
